@@ -722,6 +722,12 @@ def _texts(rng, n, prop="C15"):
             for _ in range(rng.choice([1, 1, 2, 2, 3])):
                 toks.insert(at, rng.choice(labs))
             t = " ".join(toks)
+        if prop == "C14" and rng.random() < 0.07:
+            # words outside the expression and a dash at the very start / end of the text (the
+            # subject is what is left of the text: its blanks are part of the result)
+            t = rng.choice(["- lunch with anna %s", "lunch with anna %s \u2013", "\u2014 standup %s",
+                            "- %s", "%s -", "call bob %s --"]) % t
+            toks = t.split(" ")
         if prop == "C14" and rng.random() < 0.2 and len(toks) > 1:
             # separators that pre-processing rewrites
             seps = [", ", "; ", " (", ") ", " \u2013 ", "\u2014", ",", " ,", "\t", "  "]
